@@ -115,6 +115,16 @@ def eval_case(case):
             for vm in ("direct", "pre"):
                 if not verify(W, remark(pairs, how), sig, m, vm):
                     msgs.append("signature for %s does not verify (%s) when the verifier's list has omitFromKeys set (%s)" % (E, vm, how))
+        # ids are scalars mod r: the same list written with unreduced ids (v + r, and v + 2r where it fits in 256 bits) is the same list
+        for mult in (1, 2):
+            alias = [(p[0], p[1] + mult * ref.r, p[2]) for p in pairs]
+            if all(a[1] < 2**256 for a in alias):
+                for vm in ("direct", "pre"):
+                    if not verify(W, alias, sig, m, vm):
+                        msgs.append("signature for %s does not verify (%s) under the same list with ids given as id + %d*r" % (E, vm, mult))
+                s4 = sign(W, key, alias, m, "direct")
+                if not verify(W, pairs, s4, m):
+                    msgs.append("signature made for the list with ids id + %d*r does not verify for %s" % (mult, E))
         s3 = sign(W, key, remark(pairs, "all"), m, "direct")
         if not verify(W, pairs, s3, m):
             msgs.append("signature made with a list whose entries have omitFromKeys set does not verify for %s" % E)
